@@ -55,6 +55,31 @@ H1_MALFORMED: List[Tuple[str, bytes]] = [
 ]
 
 
+# requests h11 accepts (obs-text is legal in field values) but that are unusual enough to have tripped decoders
+_WS = b"GET /ws HTTP/1.1\r\nHost: example.test\r\nx-tag: ws\r\nUpgrade: websocket\r\nSec-WebSocket-Key: dGhlIHNhbXBsZSBub25jZQ==\r\nSec-WebSocket-Version: 13\r\n"
+H1_UNUSUAL: List[Tuple[str, bytes]] = [
+    ("ws-connection-obs-text", _WS + b"Connection: \xa0Upgrade\r\n\r\n"),
+    ("ws-connection-obs-text-token", _WS + b"Connection: Upgrade, \xe9\r\n\r\n"),
+    ("ws-protocol-obs-text", _WS + b"Connection: Upgrade\r\nSec-WebSocket-Protocol: ch\xe4t\r\n\r\n"),
+    ("ws-extensions-obs-text", _WS + b"Connection: Upgrade\r\nSec-WebSocket-Extensions: permessage-deflate; x=\xff\r\n\r\n"),
+    ("ws-upgrade-obs-text", _WS.replace(b"Upgrade: websocket", b"Upgrade: websocket\xff") + b"Connection: Upgrade\r\n\r\n"),
+    ("ws-version-obs-text", _WS.replace(b"Version: 13", b"Version: 1\xb3") + b"Connection: Upgrade\r\n\r\n"),
+    ("ws-key-obs-text", _WS.replace(b"dGhlIHNhbXBsZSBub25jZQ==", b"dGhl\xffHNhbXBsZSBub25jZQ==") + b"Connection: Upgrade\r\n\r\n"),
+    ("host-obs-text", b"GET / HTTP/1.1\r\nHost: ex\xe4mple.test\r\n\r\n"),
+    ("header-obs-text", b"GET / HTTP/1.1\r\nHost: example.test\r\nx-note: caf\xe9 \xff\xfe\r\n\r\n"),
+    ("connection-obs-text", b"GET / HTTP/1.1\r\nHost: example.test\r\nConnection: keep-alive, \xe9\r\n\r\n"),
+    ("upgrade-obs-text", b"GET / HTTP/1.1\r\nHost: example.test\r\nConnection: Upgrade\r\nUpgrade: h2c\xff\r\n\r\n"),
+    ("http2-settings-obs-text", b"GET / HTTP/1.1\r\nHost: example.test\r\nConnection: Upgrade, HTTP2-Settings\r\nUpgrade: h2c\r\n"
+                                b"HTTP2-Settings: \xff\xfe\r\n\r\n"),
+    ("http2-settings-bad-base64", b"GET / HTTP/1.1\r\nHost: example.test\r\nConnection: Upgrade, HTTP2-Settings\r\nUpgrade: h2c\r\n"
+                                  b"HTTP2-Settings: abc\r\n\r\n"),
+    ("http2-settings-not-a-payload", b"GET / HTTP/1.1\r\nHost: example.test\r\nConnection: Upgrade, HTTP2-Settings\r\n"
+                                     b"Upgrade: h2c\r\nHTTP2-Settings: abcd\r\n\r\n"),
+    ("content-type-obs-text", b"POST / HTTP/1.1\r\nHost: example.test\r\nContent-Type: text/pl\xe4in\r\nContent-Length: 2\r\n\r\nhi"),
+    ("percent-junk-target", b"GET /%ff%fe/%zz?%=% HTTP/1.1\r\nHost: example.test\r\n\r\n"),
+]
+
+
 def _frame(ftype: int, flags: int, sid: int, payload: bytes, length: Optional[int] = None) -> bytes:
     n = len(payload) if length is None else length
     return struct.pack(">I", n)[1:] + bytes([ftype, flags]) + struct.pack(">I", sid & 0x7FFFFFFF) + payload
@@ -115,6 +140,8 @@ def plan(tier: str) -> dict:
             cases.append({"worker": worker, "case": {"kind": "h1-malformed", "index": i}})
         for i in range(len(_h2_malformed(H2Peer()))):
             cases.append({"worker": worker, "case": {"kind": "h2-malformed", "index": i}})
+        for i in range(len(H1_UNUSUAL)):
+            cases.append({"worker": worker, "case": {"kind": "h1-unusual", "index": i}})
         for item in _rare_items():
             for pos in ("before", "between", "after"):
                 cases.append({"worker": worker, "case": {"kind": "h2-rare", "items": [item], "pos": pos}})
@@ -131,6 +158,7 @@ def plan(tier: str) -> dict:
         "tape-chosen points next to 1..3 ordinary sibling streams; (d) a catalogue of malformed HTTP/1 requests and "
         "HTTP/2 protocol violations.  After every input a fresh connection must still be served.",
         "enumerated": ["catalogue (d): every malformed HTTP/1 request and HTTP/2 violation x worker",
+                       "16 HTTP/1 requests that h11 accepts but that carry obs-text / percent junk where hypercorn or wsproto decode x worker",
                        "every rare HTTP/2 item x position {before, between, after the siblings} x worker"],
         "assumptions": ["applications are well-behaved (read the body, answer 200)",
                         "for families (a) and (b) only the absence of internal errors, the release of the connection "
@@ -192,7 +220,7 @@ def _mutate(tape: Tape, data: bytes) -> bytes:
     for _ in range(1 + tape.draw(3, "mut.n")):
         if not buf:
             break
-        op = tape.draw(7, "mut.op")
+        op = tape.draw(8, "mut.op")
         pos = tape.draw(len(buf), "mut.pos")
         if op == 0:
             buf[pos] ^= 1 << tape.draw(8, "mut.bit")
@@ -207,6 +235,8 @@ def _mutate(tape: Tape, data: bytes) -> bytes:
             src = tape.draw(len(buf), "mut.src")
             n = 1 + tape.draw(32, "mut.splen")
             buf[pos:pos] = buf[src:src + n]
+        elif op == 7:
+            buf[pos] = 0x80 + tape.draw(128, "mut.high")
         elif op == 5:
             del buf[pos:]
         else:
@@ -256,7 +286,7 @@ def run(tape: Tape, params: dict) -> Outcome:
     def setup(conn: Any) -> None:
         conn.seg_mode = seg
 
-    if kind in ("random", "mutate-h1", "mutate-h2", "mutate-ws", "h1-malformed", "h2-malformed"):
+    if kind in ("random", "mutate-h1", "mutate-h2", "mutate-ws", "h1-malformed", "h2-malformed", "h1-unusual"):
         sink: Any = Sink()
         if kind == "random":
             prefix = tape.choice([b"", b"GET ", b"GET / HTTP/1.1\r\n", MAGIC, MAGIC + hf.SettingsFrame(0).serialize(),
@@ -269,6 +299,9 @@ def run(tape: Tape, params: dict) -> Outcome:
             data = _mutate(tape, _valid_h2(tape))
         elif kind == "mutate-ws":
             data = _mutate(tape, _valid_ws(tape))
+        elif kind == "h1-unusual":
+            name, data = H1_UNUSUAL[case["index"]]
+            info["name"] = name
         elif kind == "h1-malformed":
             name, data = H1_MALFORMED[case["index"]]
             info["name"] = name
